@@ -14,6 +14,11 @@
 //!   cmd-conv        Command constructors, accessors, conversions, round trips.
 //!   state-arith     component-wise State arithmetic, exact against the plain f32 operators.
 //!   cmd-arith       Command arithmetic over the 3x3 kind pairs; mixed-kind +/- panics.
+//!   setters-alias / cmd-arith-special / state-arith-special / from-state-tiny / update-grid-dt
+//!                   the same oracles on inputs *related* to the receiver (argument bit-equal to the
+//!                   stored value or to the other operand, +-0, 1, -1, special values, tiny non-zero next
+//!                   to exact zero, dt on the whole-second and 2^32 ns grids): an early-out or fast path
+//!                   keyed on such a coincidence is invisible to independently drawn operands.
 //!
 //! Reading of "a command built from a state is its lowest non-zero derivative": the statement's
 //! wording is loose; the only reading compatible with the crate's own tests
@@ -275,70 +280,125 @@ fn setter_ok(which: usize, s0: &State, s1: &State, x: f32) -> bool {
 }
 fn check_setters(rep: &mut Report, sub: &'static str, case: u64, rng: &mut Rng, e: (i32, i32)) {
     for which in 0..3 {
-        let name = ["set_constant_position", "set_constant_velocity", "set_constant_acceleration"][which];
         let mag = if rng.chance(0.5) { Mag::Any } else { Mag::Moderate };
         let s0 = gen_state(rng, mag);
         let x = if rng.chance(0.1) { comp(rng, Mag::Any) } else { rng.any_finite() };
-        let q = Quantity::new(x, u(e.0, e.1));
-        let want_ok = e == EXPS[which];
         rep.distinct(("setter", which, e, scls(&s0), cls(x)));
-        let got = catch(|| {
-            let mut s = s0;
-            let r = match which {
-                0 => s.set_constant_position(q),
-                1 => s.set_constant_velocity(q),
-                _ => s.set_constant_acceleration(q),
-            };
-            (s, r.is_ok())
-        });
-        let desc = format!("{}.{}(Quantity({}, mm^{} s^{}))", sfmt(&s0), name, f(x), e.0, e.1);
-        rep.eval();
-        match got {
-            Err(msg) => rep.violation(&format!("C14/setter/{}/panic", name), sub, case, format!("{} panicked: {}", desc, msg)),
-            Ok((s1, ok)) => {
-                if ok != want_ok {
-                    let what = if ok { "accepted-wrong-unit" } else { "rejected-right-unit" };
-                    rep.violation(&format!("C14/setter/{}/{}", name, what), sub, case, format!("{} returned is_ok={} -> {}", desc, ok, sfmt(&s1)));
-                } else if ok {
-                    rep.tally("setter_accepted");
-                    rep.eval();
-                    if !setter_ok(which, &s0, &s1, x) {
-                        rep.violation(&format!("C14/setter/{}/fields", name), sub, case, format!("{} = Ok -> {}", desc, sfmt(&s1)));
-                    }
-                } else {
-                    rep.tally("setter_rejected");
-                    rep.eval();
-                    if sbits(&s1) != sbits(&s0) {
-                        rep.violation(&format!("C14/setter/{}/modified-on-reject", name), sub, case, format!("{} = Err but state became {}", desc, sfmt(&s1)));
-                    }
+        check_one_setter(rep, sub, case, which, s0, x, e);
+    }
+}
+/// One Quantity setter call and the raw setter call on the same (state, value); when the Quantity form
+/// accepts, both forms must leave bit-identical states (they are documented as the same operation).
+fn check_one_setter(rep: &mut Report, sub: &'static str, case: u64, which: usize, s0: State, x: f32, e: (i32, i32)) {
+    let name = ["set_constant_position", "set_constant_velocity", "set_constant_acceleration"][which];
+    let q = Quantity::new(x, u(e.0, e.1));
+    let want_ok = e == EXPS[which];
+    let got = catch(|| {
+        let mut s = s0;
+        let r = match which {
+            0 => s.set_constant_position(q),
+            1 => s.set_constant_velocity(q),
+            _ => s.set_constant_acceleration(q),
+        };
+        (s, r.is_ok())
+    });
+    let desc = format!("{}.{}(Quantity({}, mm^{} s^{}))", sfmt(&s0), name, f(x), e.0, e.1);
+    rep.eval();
+    let mut accepted: Option<State> = None;
+    match got {
+        Err(msg) => rep.violation(&format!("C14/setter/{}/panic", name), sub, case, format!("{} panicked: {}", desc, msg)),
+        Ok((s1, ok)) => {
+            if ok != want_ok {
+                let what = if ok { "accepted-wrong-unit" } else { "rejected-right-unit" };
+                rep.violation(&format!("C14/setter/{}/{}", name, what), sub, case, format!("{} returned is_ok={} -> {}", desc, ok, sfmt(&s1)));
+            } else if ok {
+                rep.tally("setter_accepted");
+                accepted = Some(s1);
+                rep.eval();
+                if !setter_ok(which, &s0, &s1, x) {
+                    rep.violation(&format!("C14/setter/{}/fields", name), sub, case, format!("{} = Ok -> {}", desc, sfmt(&s1)));
                 }
-                if rep.want_sample(sub) {
-                    rep.sample(sub, format!("{} -> is_ok={} {}", desc, ok, sfmt(&s1)));
+            } else {
+                rep.tally("setter_rejected");
+                rep.eval();
+                if sbits(&s1) != sbits(&s0) {
+                    rep.violation(&format!("C14/setter/{}/modified-on-reject", name), sub, case, format!("{} = Err but state became {}", desc, sfmt(&s1)));
                 }
             }
+            if rep.want_sample(sub) {
+                rep.sample(sub, format!("{} -> is_ok={} {}", desc, ok, sfmt(&s1)));
+            }
         }
-        // raw variant of the same setter on the same state / value
-        let rname = ["set_constant_position_raw", "set_constant_velocity_raw", "set_constant_acceleration_raw"][which];
-        let got = catch(|| {
-            let mut s = s0;
-            match which {
-                0 => s.set_constant_position_raw(x),
-                1 => s.set_constant_velocity_raw(x),
-                _ => s.set_constant_acceleration_raw(x),
-            };
-            s
-        });
-        rep.eval();
-        rep.tally("setter_raw");
-        match got {
-            Err(msg) => rep.violation(&format!("C14/setter/{}/panic", rname), sub, case, format!("{}.{}({}) panicked: {}", sfmt(&s0), rname, f(x), msg)),
-            Ok(s1) => {
-                if !setter_ok(which, &s0, &s1, x) {
-                    rep.violation(&format!("C14/setter/{}/fields", rname), sub, case, format!("{}.{}({}) -> {}", sfmt(&s0), rname, f(x), sfmt(&s1)));
+    }
+    // raw variant of the same setter on the same state / value
+    let rname = ["set_constant_position_raw", "set_constant_velocity_raw", "set_constant_acceleration_raw"][which];
+    let got = catch(|| {
+        let mut s = s0;
+        match which {
+            0 => s.set_constant_position_raw(x),
+            1 => s.set_constant_velocity_raw(x),
+            _ => s.set_constant_acceleration_raw(x),
+        };
+        s
+    });
+    rep.eval();
+    rep.tally("setter_raw");
+    match got {
+        Err(msg) => rep.violation(&format!("C14/setter/{}/panic", rname), sub, case, format!("{}.{}({}) panicked: {}", sfmt(&s0), rname, f(x), msg)),
+        Ok(s1) => {
+            if !setter_ok(which, &s0, &s1, x) {
+                rep.violation(&format!("C14/setter/{}/fields", rname), sub, case, format!("{}.{}({}) -> {}", sfmt(&s0), rname, f(x), sfmt(&s1)));
+            }
+            if let Some(sq) = accepted {
+                rep.eval();
+                rep.tally("setter_quantity_vs_raw_compared");
+                if sbits(&sq) != sbits(&s1) {
+                    rep.violation(&format!("C14/setter/{}/quantity-vs-raw", name), sub, case,
+                        format!("{} = Ok -> {} but {}({}) -> {}: the two forms must agree bit for bit", desc, sfmt(&sq), rname, f(x), sfmt(&s1)));
                 }
             }
         }
     }
+}
+fn field(s: &State, i: usize) -> f32 {
+    [s.position, s.velocity, s.acceleration][i % 3]
+}
+const ARG_SRC: [&str; 8] = ["own-current", "next-field-current", "prev-field-current", "+0", "-0", "special", "own-current-negated", "random"];
+/// Setter argument drawn in relation to the state it is applied to (an early-out keyed on "argument
+/// equals what is already stored" or on a special value can only be seen there), crossed with every
+/// {+0, -0, non-zero} pattern of the three fields.
+fn check_setter_alias(rep: &mut Report, sub: &'static str, case: u64, rng: &mut Rng, which: usize, src: usize, pat: u64) {
+    let mag = if rng.chance(0.5) { Mag::Any } else { Mag::Moderate };
+    let mut one = |c: u64| -> f32 {
+        match c {
+            0 => 0.0,
+            1 => -0.0,
+            _ => nz(rng, mag),
+        }
+    };
+    let s0 = State::new_raw(one(pat % 3), one(pat / 3 % 3), one(pat / 9));
+    let x = match src {
+        0 => field(&s0, which),
+        1 => field(&s0, which + 1),
+        2 => field(&s0, which + 2),
+        3 => 0.0,
+        4 => -0.0,
+        5 => rng.special(),
+        6 => -field(&s0, which),
+        _ => rng.any_finite(),
+    };
+    rep.distinct(("setter-alias", which, src, pat));
+    rep.tally("setter_alias_cases");
+    if x.to_bits() == field(&s0, which).to_bits() {
+        rep.tally("setter_arg_bit_equal_to_current");
+    }
+    check_one_setter(rep, sub, case, which, s0, x, EXPS[which]);
+    // the same aliased argument under a wrong unit must still be rejected and change nothing
+    let mut e = (rng.range_i64(-3, 3) as i32, rng.range_i64(-3, 3) as i32);
+    if e == EXPS[which] {
+        e = EXPS[(which + 1) % 3];
+    }
+    check_one_setter(rep, sub, case, which, s0, x, e);
 }
 
 // --------------------------------------------------------------------------------- State::new
@@ -772,6 +832,167 @@ fn main() {
     }
     rep.exhaustive("Command arithmetic: 3x3 ordered kind pairs x {+, -, +=, -=} (panic iff kinds differ) and {neg, *f32, /f32, *=, /=}");
 
+    // ---- 9. setters with the argument related to the state (own current value bit-identical, another
+    // field's value, +-0, special values, negated, random) x 27 {+0,-0,non-zero} patterns x 3 setters
+    let reps = args.pick(50, 2_500);
+    let mut idx = 0u64;
+    for _ in 0..reps {
+        for which in 0..3usize {
+            for src in 0..ARG_SRC.len() {
+                for pat in 0..27u64 {
+                    let case = idx;
+                    idx += 1;
+                    if !args.mine("setters-alias", case) {
+                        continue;
+                    }
+                    let mut rng = Rng::new(args.seed, 1412, case);
+                    check_setter_alias(&mut rep, "setters-alias", case, &mut rng, which, src, pat);
+                }
+            }
+        }
+    }
+    rep.exhaustive("setters: 3 setters (Quantity + raw form) x 8 argument sources (own current value, other fields' values, +0, -0, special, negated, random) x 27 {+0,-0,non-zero} field patterns");
+    // ---- 10. Command arithmetic with special right-hand sides: rhs value / coefficient in
+    // {+0, -0, 1, -1, bit-equal to the lhs value, special()} x 3x3 kinds (mixed kinds must still panic)
+    let reps = args.pick(60, 3_000);
+    let mut idx = 0u64;
+    for _ in 0..reps {
+        for ki in 0..3usize {
+            for kj in 0..3usize {
+                for ysrc in 0..6u64 {
+                    for ksrc in 0..6u64 {
+                        let case = idx;
+                        idx += 1;
+                        if !args.mine("cmd-arith-special", case) {
+                            continue;
+                        }
+                        let mut rng = Rng::new(args.seed, 1413, case);
+                        let x = match rng.below(4) {
+                            0 => rng.special(),
+                            1 => comp(&mut rng, Mag::Moderate),
+                            _ => rng.any_finite(),
+                        };
+                        let sp = |src: u64, rng: &mut Rng| match src {
+                            0 => 0.0,
+                            1 => -0.0,
+                            2 => 1.0,
+                            3 => -1.0,
+                            4 => x,
+                            _ => rng.special(),
+                        };
+                        let y = sp(ysrc, &mut rng);
+                        let k = sp(ksrc, &mut rng);
+                        rep.distinct(("cmd-arith-special", ki, kj, ysrc, ksrc, cls(x)));
+                        rep.tally("cmd_arith_special_cases");
+                        check_cmd_arith(&mut rep, "cmd-arith-special", case, ki, kj, x, y, k);
+                    }
+                }
+            }
+        }
+    }
+    rep.exhaustive("Command arithmetic: 3x3 kind pairs x rhs value in {+0,-0,1,-1,=lhs,special} x coefficient in the same pool");
+    // ---- 11. State arithmetic with related operands: b in {a, -a, +0 state, -0 state, random},
+    // coefficient in {1, 0, -0, -1, 2, special(), a.position}
+    let reps = args.pick(400, 20_000);
+    let mut idx = 0u64;
+    for _ in 0..reps {
+        for bsrc in 0..5u64 {
+            for ksrc in 0..7u64 {
+                let case = idx;
+                idx += 1;
+                if !args.mine("state-arith-special", case) {
+                    continue;
+                }
+                let mut rng = Rng::new(args.seed, 1414, case);
+                let mag = if rng.chance(0.5) { Mag::Any } else { Mag::Moderate };
+                let a = gen_state(&mut rng, mag);
+                let b = match bsrc {
+                    0 => a,
+                    1 => State::new_raw(-a.position, -a.velocity, -a.acceleration),
+                    2 => State::new_raw(0.0, 0.0, 0.0),
+                    3 => State::new_raw(-0.0, -0.0, -0.0),
+                    _ => gen_state(&mut rng, mag),
+                };
+                let k = match ksrc {
+                    0 => 1.0,
+                    1 => 0.0,
+                    2 => -0.0,
+                    3 => -1.0,
+                    4 => 2.0,
+                    5 => rng.special(),
+                    _ => a.position,
+                };
+                rep.distinct(("state-arith-special", bsrc, ksrc, scls(&a)));
+                rep.tally("state_arith_special_cases");
+                check_state_arith(&mut rep, "state-arith-special", case, a, b, k);
+            }
+        }
+    }
+    rep.exhaustive("State arithmetic: second operand in {a, -a, +0, -0, random} x coefficient in {1, 0, -0, -1, 2, special, a.position}");
+    // ---- 12. Command::from(State) with tiny non-zero components next to exact zeros:
+    // each component in {+0, -0, +tiny, -tiny, subnormal, ordinary non-zero}, tiny = 1e-12..2e-7
+    let reps = args.pick(100, 5_000);
+    let mut idx = 0u64;
+    for _ in 0..reps {
+        for pat in 0..216u64 {
+            let case = idx;
+            idx += 1;
+            if !args.mine("from-state-tiny", case) {
+                continue;
+            }
+            let mut rng = Rng::new(args.seed, 1415, case);
+            let mut one = |c: u64| -> f32 {
+                match c {
+                    0 => 0.0,
+                    1 => -0.0,
+                    2 => rng.log_uniform(1e-12, 2e-7) as f32,
+                    3 => -(rng.log_uniform(1e-12, 2e-7) as f32),
+                    4 => f32::from_bits(rng.range_i64(1, 0x007f_ffff) as u32 | if rng.chance(0.5) { 0x8000_0000 } else { 0 }),
+                    _ => nz(&mut rng, Mag::Moderate),
+                }
+            };
+            let s = State::new_raw(one(pat % 6), one(pat / 6 % 6), one(pat / 36));
+            if (2..=4).contains(&(pat / 36)) || ((pat / 36) < 2 && (2..=4).contains(&(pat / 6 % 6))) {
+                rep.tally("from_state_decided_by_tiny_component");
+            }
+            rep.distinct(("from-state-tiny", pat));
+            check_from_state(&mut rep, "from-state-tiny", case, s);
+        }
+    }
+    rep.exhaustive("Command::from(State): 6^3 patterns of {+0, -0, +tiny, -tiny, subnormal, ordinary} with tiny in 1e-12..2e-7");
+    // ---- 13. update with dt on the grids a split / cached conversion would key on: exact multiples of
+    // 1e9 ns (whole seconds) and of 2^32 ns, and their +-1 ns neighbours, both signs
+    for case in args.cases("update-grid-dt", 40_000, 2_000_000) {
+        let mut rng = Rng::new(args.seed, 1416, case);
+        let mag = if rng.chance(0.6) { Mag::Moderate } else { Mag::Wide };
+        let s0 = gen_state(&mut rng, mag);
+        const S: i64 = 1_000_000_000;
+        const W: i64 = 1 << 32;
+        let class = case % 8;
+        let dt_ns = match class {
+            0 => rng.range_i64(-100_000, 100_000) * S,
+            1 => rng.range_i64(-23_283, 23_283) * W,
+            2 => rng.range_i64(-99_999, 99_999) * S + rng.range_i64(-1, 1),
+            3 => rng.range_i64(-23_282, 23_282) * W + rng.range_i64(-1, 1),
+            4 => rng.range_i64(-3, 3) * S,
+            5 => rng.range_i64(-3, 3) * W,
+            6 => rng.sign() as i64 * (1i64 << rng.below(47)),
+            _ => rng.range_i64(-99_999, 99_999) * S + rng.sign() as i64 * rng.range_i64(1, S - 1),
+        };
+        debug_assert!(dt_ns.abs() <= DT_MAX);
+        if dt_ns % S == 0 {
+            rep.tally("update_dt_whole_seconds");
+        }
+        if dt_ns % W == 0 {
+            rep.tally("update_dt_multiple_of_2^32");
+        }
+        rep.distinct(("update-grid-dt", class, mag, scls(&s0), dt_class(dt_ns)));
+        check_update(&mut rep, "update-grid-dt", case, s0, dt_ns, true);
+        if rep.want_sample("update-grid-dt") {
+            rep.sample("update-grid-dt", format!("{}.update(Time({}))", sfmt(&s0), dt_ns));
+        }
+    }
+
     // floors (merged tallies; met by quota for every seed: dt classes are case % 10, units /
     // patterns / kind pairs are enumerated)
     rep.floor("update_dt-zero", 30_000);
@@ -790,5 +1011,13 @@ fn main() {
     rep.floor("cmd_conv_acceleration", 30_000);
     rep.floor("cmd_mixed_kind_panics_observed", 100_000);
     rep.floor("cmd_same_kind_binary", 50_000);
+    rep.floor("setter_alias_cases", 30_000);
+    rep.floor("setter_arg_bit_equal_to_current", 4_000);
+    rep.floor("setter_quantity_vs_raw_compared", 30_000);
+    rep.floor("cmd_arith_special_cases", 19_000);
+    rep.floor("state_arith_special_cases", 14_000);
+    rep.floor("from_state_decided_by_tiny_component", 10_000);
+    rep.floor("update_dt_whole_seconds", 10_000);
+    rep.floor("update_dt_multiple_of_2^32", 10_000);
     rep.finish(&args);
 }
